@@ -104,6 +104,11 @@ GROUPS += [
           bound="one constructed raw problem shape (an unused column before a column with a repeated term), symbolic coefficient values; loops completely unwound",
           flags=["--no-malloc-may-fail"], functions=["buildMatrix"], props=["C11", "C17"],
           assumed=["rawlp/matrix_dup: static buildMatrix called through goto-cc --export-file-local-symbols; ILLdata_warn is a counter; ILLraw_colname is a stub that checks its index; the general buildMatrix group (symbolic shapes) exhausts the solver and is not built"]),
+    Group("rawlp/matrix_empty", "rawlp_matrix_dup.c", defines=["SHAPE2"], tus=["rawlp_mpq.c", "eg_lpnum.c", "allocrus.c"], model=MODEL, dfcc=False, export_static=True, unwind=5, kind="bounded", namebuf=512, timeout=900,
+          remove_bodies=["mpq_ILLraw_colname"],
+          bound="one constructed raw problem shape (an objective-only column before an ordinary column), symbolic coefficient values; loops completely unwound",
+          flags=["--no-malloc-may-fail"], functions=["buildMatrix"], props=["C11", "C17"],
+          assumed=["rawlp/matrix_dup: static buildMatrix called through goto-cc --export-file-local-symbols; ILLdata_warn is a counter; ILLraw_colname is a stub that checks its index; the general buildMatrix group (symbolic shapes) exhausts the solver and is not built"]),
 ]
 
 GROUPS += [
